@@ -256,3 +256,39 @@ Example wf_messages_example :
   /\ wf_result (mkWRes 2 s_empty s_empty s_empty [[(72%N, GNum 1 2)]]) = true
   /\ wf_monreq (mkWMon (Some []) [(72%N, 6%N, GSet [])] (Some (mkWSel (Some false) None None (Some true)))) = true.
 Proof. vm_compute. auto. Qed.
+
+(** a request without a select, or a select without members, selects every kind of change;
+    a member that is present decides its kind alone *)
+Theorem monreq_without_select_selects_all fuel o m :
+  obj_get o s_select = None -> dec_monreq fuel (GObj o) = Ok m -> sel_kinds (mr_select m) = (true, true, true, true).
+Proof.
+  intros H. cbn [dec_monreq]. rewrite H.
+  destruct (f_columns (obj_get o s_columns)); cbn [rbind]; try discriminate.
+  destruct (f_list (dec_condition fuel) (obj_get o s_where)); cbn [rbind]; try discriminate.
+  intros E. injection E as <-. reflexivity.
+Qed.
+
+Theorem select_member_decides_its_kind o s :
+  dec_select (GObj o) = Ok s ->
+  (forall b, obj_get o s_initial = Some (GBool b) -> sel_flag (ms_initial s) = b) /\
+  (obj_get o s_initial = None -> sel_flag (ms_initial s) = true) /\
+  (forall b, obj_get o s_modify = Some (GBool b) -> sel_flag (ms_modify s) = b) /\
+  (obj_get o s_modify = None -> sel_flag (ms_modify s) = true).
+Proof.
+  cbn [dec_select]. intros H.
+  destruct (f_pbool (obj_get o s_initial)) as [a| |] eqn:Ea; cbn [rbind] in H; try discriminate.
+  destruct (f_pbool (obj_get o s_ins)) as [b| |]; cbn [rbind] in H; try discriminate.
+  destruct (f_pbool (obj_get o s_del)) as [c| |]; cbn [rbind] in H; try discriminate.
+  destruct (f_pbool (obj_get o s_modify)) as [d| |] eqn:Ed; cbn [rbind] in H; try discriminate.
+  injection H as <-. cbn [ms_initial ms_modify].
+  repeat split.
+  - intros x Hx. rewrite Hx in Ea. cbn in Ea. injection Ea as <-. reflexivity.
+  - intros Hx. rewrite Hx in Ea. cbn in Ea. injection Ea as <-. reflexivity.
+  - intros x Hx. rewrite Hx in Ed. cbn in Ed. injection Ed as <-. reflexivity.
+  - intros Hx. rewrite Hx in Ed. cbn in Ed. injection Ed as <-. reflexivity.
+Qed.
+
+Theorem sel_kinds_roundtrip (vu : sym -> bool) f m :
+  wf_monreq m = true ->
+  exists m', dec_monreq (5 + f) (enc_monreq vu m) = Ok m' /\ sel_kinds (mr_select m') = sel_kinds (mr_select m).
+Proof. intros H. exists m. split; [apply monreq_roundtrip, H|reflexivity]. Qed.
